@@ -149,7 +149,8 @@ def main():
             print("ANALYSIS-BROKEN property=%s %s" % (pid, b))
         rc = 2
     if violations:
-        rc = 1 if rc == 0 else rc
+        # a concrete violation is reported as such even when another rule of the same check could not complete
+        rc = 1
         for i, ob in enumerate(violations):
             path = os.path.join(evdir, "replay", "%s-%d.json" % (pid, i))
             if a.no_evidence:
@@ -157,8 +158,6 @@ def main():
             json.dump(ob.to_json(pid), open(path, "w"), indent=1)
             print("VIOLATION property=%s replay=%s" % (pid, path))
             print("  %s %s at %s: %s -- %s" % (ob.rule, ob.fn_q, ob.loc, ob.construct, ob.why))
-        if rc == 2:
-            rc = 2
     wall = time.time() - t0
 
     summary = {
